@@ -22,6 +22,38 @@ CHECKS = {
    text="Lean 4 theorems for every input/parameter record: Poseidon::hash = the paper's three-phase permutation; ring-buffer Grain LFSR = shift-register LFSR (constants and MDS for every (t,RF,RP,skip)); the ROUND_PARAMS table regenerated from hashers.rs on each run = circomlib's rows for t=2..9; hash_to_field = LE(Keccak-256) mod p, total. Model tied to /repo by a correspondence run (typed, byte-level, FFI, 8 threads).",
    note="Keccak-256 (tiny-keccak) and arkworks field arithmetic are modelled from their specifications and tied by correspondence only; Lean kernel; axioms propext/Classical.choice/Quot.sound.",
    design="§5 C09", technique="Lean 4 proof (simulation + loop splitting) + generated-table theorem + differential correspondence"),
+ "C01": dict(
+   text="Lean 4 theorem over the whole valid input space, relative to the Groth16 contract (completeness of prove/verify on satisfiable witnesses, proof codec): for every registered identity (membership path from the tree theorems, any position), limit in the circuit's range, message id below it, external nullifier and signal, generate_rln_proof returns a 288-byte message that verify, verify_rln_proof (same root) and verify_with_roots (root set containing the root, or empty) accept — composing request decoding (C10), published values = formulas (C04), the circuit relation, the public-input order regenerated from verify_proof, and the message layouts. qap.rs / zkey.rs / arkworks are executed, not modelled: real end-to-end runs on the regions the tests never reach (extreme positions, limits 1 / 2^16, ids 0 / limit-1, boundary field values, long signals) through all proving entry points, each message then verified three ways.",
+   note=TB + " Partial: Groth16/QAP/zkey parsing are a contract in the theorem and are covered only by the executed cases.",
+   design="§5 C01", technique="Lean 4 proof (composition over a SNARK contract) + end-to-end differential runs with real proofs"),
+ "C02": dict(
+   text="Lean 4 theorems for every byte string and every SNARK contract: acceptance by verify / verify_rln_proof / verify_with_roots implies a valid Groth16 proof for exactly the carried values, x = hash of exactly the attached signal, root = the verifier's root (resp. membership in the non-empty root set), and the exact verdict is the conjunction of those facts (so each single modification that breaks one of them is rejected). Correspondence: every single-field modification, bit flips of the proof, signal / declared-length changes, verifier tree changes and root sets (incl. zero entries) on real messages, with arkworks' own verdict as oracle so the three entry points' verdicts are predicted exactly.",
+   note=TB + " Groth16 soundness itself is arkworks' (contract).",
+   design="§5 C02", technique="Lean 4 proof (decision logic over a SNARK contract) + differential correspondence with oracle"),
+ "C03": dict(
+   text="Lean 4 theorems over the field (primality of the BN254 scalar modulus proved by a Pratt certificate): two shares of one line with different x always interpolate to the secret; identical x gives an error, never a crash; nullifier, root and external nullifier do not depend on the signal; recovery from two message encodings returns the secret, and nothing across different external nullifiers; equal nullifiers for different (external nullifier, message id) exhibit a Poseidon collision (reduction). Correspondence: boundary/random shares, message pairs built by the real code, really proved message pairs.",
+   note=TB + " Distinctness of nullifiers is relative to Poseidon collision resistance (reduction + sampling).",
+   design="§5 C03", technique="Lean 4 proof (field algebra over ZMod p with proved primality) + differential correspondence"),
+ "C04": dict(
+   text="Lean 4 theorems: for every witness proof_values_from_witness returns y = s + x*H(s,e,m), nullifier = H(H(s,e,m)), root = the ideal path fold (C07's recomputation) of H(H(s),limit), x and the external nullifier unchanged; error exactly when message id >= limit. Coincidence with the circuit's outputs is checked by running calculate_rln_witness()[0..6] and generate_rln_proof bytes 128..288 against the Lean formulas on boundary values, all direction patterns on a prefix, one-hot levels and random witnesses.",
+   note=TB + " Partial: equality with the circuit's outputs is sampled (the bundled graph = the circuit is not a theorem, DESIGN §9).",
+   design="§5 C04", technique="Lean 4 proof (unfolding to the specification formulas) + differential correspondence"),
+ "C10": dict(
+   text="Lean 4 theorems for all values: every codec pair round-trips (field elements, element / byte vectors, usize lists, witness, proof values, prove request), decoding always yields canonical values, a decoded witness consumed exactly the input whose length is fixed by its two counts (no trailing, no missing bytes), decoding is total; and translator-fed theorems: the field orders regenerated from protocol.rs on every run (serialisers, deserialisers, verify_proof's public inputs, the layouts in the doc comments) agree with each other and with the model. Correspondence in both directions against an encoder/decoder written from the documented layouts.",
+   note=TB + " serde_json / ark-serialize (JSON witness) are trusted; the JSON round trip is exercised only.",
+   design="§5 C10", technique="Lean 4 proof (round trips, exact length) + generated-layout theorems + differential correspondence"),
+ "C12": dict(
+   text="Lean 4 theorems over every request: a successful proving call had a witness with message id < limit and lists of the tree's depth — i.e. circuit-satisfiable outside three explicitly characterised shapes (open finding C12-unsat-accepted); the only crash is the witness calculator's length assertion (open finding C12-path-length-panic); the repaired boundary id = limit is rejected. Correspondence over the request domain (ids / limits across every boundary, positions up to 2^64-1, truncated / over-long / over-declared buffers, wrong path lengths, non-binary directions) with the specification answering ok exactly when the circuit relation is satisfiable.",
+   note=TB + " Open findings C12-unsat-accepted, C12-path-length-panic (known_findings.txt).",
+   design="§5 C12", technique="Lean 4 proof (decision logic) + differential correspondence with known-finding matchers"),
+ "C13": dict(
+   text="Lean 4 theorems for every byte string and SNARK contract: verify, verify_rln_proof, verify_with_roots (both arguments) and recover_id_secret never panic; accepted messages carry canonical encodings; two canonical encodings of the same five values are byte-identical; any v + k*p alias is rejected by all three entry points. Correspondence: every truncation length, over-long inputs, declared signal lengths up to 2^64-1, random content, every alias that fits 32 bytes, roots buffers of every length.",
+   note=TB,
+   design="§5 C13", technique="Lean 4 proof (totality, uniqueness of encoding) + differential correspondence"),
+ "C19": dict(
+   text="Lean 4 theorems for all operands below p: the Montgomery evaluator returns circom's documented value for every operator (modular arithmetic, signed comparisons through truth tables and constants regenerated from graph.rs on every run, Idiv/Mod, masked shifts modelled at limb level and proved equal to division / masked multiplication by 2^n, bitwise operations with the conditional subtraction), results canonical, no crash, integer and Montgomery evaluators agree — outside three open findings whose negations are kernel-checked at witnesses (shift counts above p/2, unimplemented Pow/Id, the unreduced integer evaluator). Correspondence on the boundary grid.",
+   note=TB + " Open findings C19-shift-count-above-half, C19-montgomery-unimplemented, C19-integer-evaluator.",
+   design="§5 C19", technique="Lean 4 proof (operator semantics, limb-level shifts) + generated-table theorems + differential correspondence"),
  "C15": dict(
    text="Lean 4 theorems: for every history, each backend model's list of empty positions equals the ideal tree's, which is characterised as the ascending positions below the high-water mark never written or last removed. The persistent backend's flag cache is not persisted (open finding C15-pm-reopen-flags, reported as KNOWN-FINDING); close/reopen histories are still compared with the model exactly. Correspondence: generated histories over every mutator with the empty list observed after every operation.",
    note=TB + " Open findings C15-pm-reopen-flags and (shared) C08-pm-batch.",
